@@ -427,6 +427,14 @@ func (c *provCtx) call(call *ssa.Call, idx int) string {
 		return fmt.Sprintf("be%s(%s)", strings.TrimPrefix(fn.Name(), "Uint"), arg(1))
 	case "(encoding/binary.littleEndian).Uint16", "(encoding/binary.littleEndian).Uint32", "(encoding/binary.littleEndian).Uint64":
 		return fmt.Sprintf("le%s(%s)", strings.TrimPrefix(fn.Name(), "Uint"), arg(1))
+	case "(encoding/binary.bigEndian).AppendUint16", "(encoding/binary.bigEndian).AppendUint32", "(encoding/binary.bigEndian).AppendUint64":
+		n := strings.TrimPrefix(fn.Name(), "AppendUint")
+		bytesN := map[string]string{"16": "2", "32": "4", "64": "8"}[n]
+		prefix := arg(1)
+		if prefix == "nil" || strings.HasPrefix(prefix, "zeros(0") {
+			prefix = ""
+		}
+		return strings.TrimSpace(prefix + " be" + n + "(" + arg(2) + ")@" + bytesN)
 	case "math.Float32bits", "math.Float64bits":
 		return "ieee(" + arg(0) + ")"
 	case "math.Float32frombits", "math.Float64frombits":
@@ -521,7 +529,58 @@ func (c *provCtx) bufferContents(buf ssa.Value) string {
 				}
 				switch {
 				case fn.Pkg != nil && shortPkg(fn.Pkg.Pkg) == "primitive" && strings.HasPrefix(fn.Name(), "Write"):
-					evs = append(evs, ev{r, fmt.Sprintf("%s(%s)", strings.ToLower(strings.TrimPrefix(fn.Name(), "Write")), c.val(r.Call.Args[0]))})
+					name := strings.ToLower(strings.TrimPrefix(fn.Name(), "Write"))
+					switch name {
+					case "long":
+						evs = append(evs, ev{r, fmt.Sprintf("be64(%s)@8", c.val(r.Call.Args[0]))})
+					case "int":
+						evs = append(evs, ev{r, fmt.Sprintf("be32(%s)@4", c.val(r.Call.Args[0]))})
+					case "short":
+						evs = append(evs, ev{r, fmt.Sprintf("be16(%s)@2", c.val(r.Call.Args[0]))})
+					case "byte":
+						evs = append(evs, ev{r, fmt.Sprintf("u8(%s)", c.val(r.Call.Args[0]))})
+					default:
+						evs = append(evs, ev{r, fmt.Sprintf("%s(%s)", name, c.val(r.Call.Args[0]))})
+					}
+				case fn.String() == "encoding/binary.Write" && len(r.Call.Args) == 3:
+					// binary.Write(buf, order, v): fixed-width integer of v's size
+					order := "?order"
+					if ld, ok := r.Call.Args[1].(*ssa.MakeInterface); ok {
+						if u, ok := ld.X.(*ssa.UnOp); ok {
+							if g, ok := u.X.(*ssa.Global); ok {
+								switch g.Name() {
+								case "BigEndian":
+									order = "be"
+								case "LittleEndian":
+									order = "le"
+								}
+							}
+						}
+					}
+					data := r.Call.Args[2]
+					if mi, ok := data.(*ssa.MakeInterface); ok {
+						data = mi.X
+					}
+					bits := 0
+					if bt, ok := data.Type().Underlying().(*types.Basic); ok {
+						switch bt.Kind() {
+						case types.Int8, types.Uint8:
+							bits = 8
+						case types.Int16, types.Uint16:
+							bits = 16
+						case types.Int32, types.Uint32, types.Float32:
+							bits = 32
+						case types.Int64, types.Uint64, types.Float64:
+							bits = 64
+						}
+					}
+					if bits == 0 || order == "?order" {
+						evs = append(evs, ev{r, "?binary.Write"})
+					} else if bits == 8 {
+						evs = append(evs, ev{r, "u8(" + c.val(data) + ")"})
+					} else {
+						evs = append(evs, ev{r, fmt.Sprintf("%s%d(%s)@%d", order, bits, c.val(data), bits/8)})
+					}
 				case fn.String() == "(*bytes.Buffer).Bytes" || fn.String() == "(*bytes.Buffer).Len":
 				case fn.String() == "(*bytes.Buffer).Write":
 					evs = append(evs, ev{r, "raw(" + c.val(r.Call.Args[1]) + ")"})
